@@ -28,13 +28,13 @@ REG = {
         "assumptions": ["lean/Model/Expr.lean mirrors grammar.parsimonious, _parser.py and _expression/*.py (validated by the expr correspondence on every run)"],
     },
     "C12": {
-        "module": "Props.C12",
+        "module": ["Props.C12", "Props.C12Gen"],
         "suites": [("const", (8000, 200000))],
         "rule": "every width 1..64 x unsigned saturated/truncated and signed: the six points around both ends of the range (corpus, exhaustive); random (type, initialiser) pairs: boundaries of the "
                 "own and neighbouring widths +-2, 2**63/2**64 edges, float16/32/64 +-max finite +-1, +-1/3, +-1e-30, +-max/2**60, non-integers, strings of length 0/1/2 incl. NUL, DEL, U+0080, "
                 "non-ASCII, booleans, sets, ill-formed type parameters (int1, truncated int8, uint65, float17) and types that cannot carry constants (void, arrays, byte, utf8); initialisers spelled as "
                 "literals in any base, 2**k-1 forms, sums, quotients; distinct = distinct (type, initialiser text)",
-        "technique": "Lean 4 theorems over a model of Constant.__init__ and inclusive_value_range + differential correspondence through `<type> X = <expr>` definitions + declarative oracle on Python integers/Fractions",
+        "technique": "Lean 4 theorems over a model of Constant.__init__ and inclusive_value_range, the integer ranges re-checked on every run against Lean definitions translated from _primitive.py (py2lean + bridge theorems) + differential correspondence through `<type> X = <expr>` definitions + declarative oracle on Python integers/Fractions",
         "level_text": "Proved in Lean 4 for the model: the signed range the code computes from ((1<<n)-1)//2 is [-2^(n-1), 2^(n-1)-1] for every n>=1, the unsigned range is [0, 2^n-1], the float ranges are "
                       "+-(largest finite value) of binary16/32/64 as exact rationals; and constCheck ty v = ok v' if and only if the rule of the property holds (bool<->bool; integers integral and in range; "
                       "floats rational in range; a one-character ASCII string only for 8-bit unsigned, stored as its code point; value otherwise stored unchanged; only bool/integer/float types with legal "
